@@ -138,6 +138,15 @@ func Main(c *run.Ctx) {
 					break
 				}
 				sig := "process-death/" + sigEndpoint(open.Endpoint) + "/" + frame
+				if strings.Contains(head, "out of memory") {
+					// an allocation the request asked for: say which kind of request (a PromQL subquery is pre-allocated by
+					// the vendored engine, one point per inner step, before any sample limit applies)
+					sig += "/out-of-memory"
+					dec := strings.NewReplacer("%5B", "[", "%5D", "]", "%3A", ":", "%5b", "[", "%5d", "]", "%3a", ":").Replace(string(open.Case))
+					if subqueryRe.MatchString(dec) {
+						sig += "/promql-subquery"
+					}
+				}
 				c.Violation(sig, fmt.Sprintf("the reader process died on one request to %s: %s at %s; case: %s", open.Endpoint, head, frame, clip(string(open.Case), 900)),
 					map[string]any{"case_index": out.OpenIdx, "case": open, "stderr_tail": tailS(out.Stderr, 6000)})
 				c.Case(open.Trigger + "|death")
@@ -171,6 +180,8 @@ func Main(c *run.Ctx) {
 	c.Floor("client went away mid-response", c.Pick(20, 1000), 0)
 	c.Floor("database error at row k", c.Pick(50, 2500), 0)
 }
+
+var subqueryRe = regexp.MustCompile(`\[[^\]\[]*:[^\]\[]*\]`)
 
 // deathHead extracts the first panic / fatal error line of a dying process and the innermost
 // qryn frame of the goroutine that caused it.
